@@ -5,6 +5,7 @@ import (
 	"encoding/json"
 	"fmt"
 	"math/big"
+	"strings"
 
 	crypto "github.com/onflow/crypto"
 	"github.com/onflow/crypto/hash"
@@ -123,6 +124,33 @@ func runSpock(raw json.RawMessage, seed int64) (res Result) {
 				add("VerifyAgainstDataIsVerify", fmt.Sprintf("(%v,%v) vs (%v,%v)", a, e1, b, e2))
 			}
 		}
+		// the two proofs are parsed each on its own: a valid pair cut at another place (lengths that compensate each other: 0/96,
+		// 40/56, 47/49, 49/47, 95/1 ...), or with bytes moved from the end of one to the front of the other, is no valid pair
+		if c.K2 != "zero" {
+			sk2 := w.SK(w.KeyScalar(w.formOf(c.K2)))
+			pa, _ := crypto.SPOCKProve(sk, data, h)
+			pb, _ := crypto.SPOCKProve(sk2, data, h)
+			if ok, err := crypto.SPOCKVerify(pk1, pa, pk2, pb); !ok || err != nil {
+				add("PairingRelation", fmt.Sprintf("two proofs of the same data: (%v, %v)", ok, err))
+			}
+			both := append(append([]byte(nil), pa...), pb...)
+			for _, cut := range []int{0, 1, 16, 40, 47, 49, 56, 80, 95, 96} {
+				ok, err := crypto.SPOCKVerify(pk1, both[:cut], pk2, both[cut:])
+				res.Evals++
+				if ok || err != nil {
+					add("PairingRelation", fmt.Sprintf("a valid pair of proofs cut at byte %d instead of 48 (lengths %d and %d): SPOCKVerify = (%v, %v)", cut, cut, 96-cut, ok, err))
+				}
+			}
+			for _, ln := range [][2]int{{47, 47}, {49, 49}, {48, 0}, {0, 48}, {96, 96}} {
+				a := append(append([]byte(nil), pa...), pa...)[:ln[0]]
+				b := append(append([]byte(nil), pb...), pb...)[:ln[1]]
+				ok, err := crypto.SPOCKVerify(pk1, a, pk2, b)
+				res.Evals++
+				if ok || err != nil {
+					add("PairingRelation", fmt.Sprintf("proofs of lengths %d and %d: SPOCKVerify = (%v, %v)", ln[0], ln[1], ok, err))
+				}
+			}
+		}
 		esk, _ := crypto.GeneratePrivateKey(crypto.ECDSAP256, make([]byte, 32))
 		if _, err := crypto.SPOCKProve(esk, data, h); !crypto.IsNotBLSKeyError(err) {
 			add("NotBLSKey", fmt.Sprintf("SPOCKProve(ECDSA key): %v", err))
@@ -197,6 +225,58 @@ func runPop(raw json.RawMessage, seed int64) (res Result) {
 			return
 		}
 		tags := append(append([]string{}, c.Tags...), "BLS_POP_BLS12381G1_XOF:KMAC128_SSWU_RO_POP_BLS_SIG_", "\x00", string(bytes.Repeat([]byte("t"), 300)))
+		// padded and cut variants of the suite strings: zero bytes, spaces or repeated last characters appended (up to and beyond 64,
+		// 128 and 168 bytes in total), characters removed from the end
+		const popSuite = "BLS_POP_BLS12381G1_XOF:KMAC128_SSWU_RO_POP_"
+		padded := len(c.Tags) == 1 && c.Tags[0] == "#padded" // a dedicated job: the tag list is the one built here
+		if padded {
+			tags = tags[1:]
+		}
+		for _, base := range []string{popSuite, "BLS_POP_", ""} {
+			if !padded {
+				break
+			}
+			for k := 1; k <= 130; k++ {
+				if k > 30 && k%7 != int(seed%7+7)%7 && len(base)+k != 64 && len(base)+k != 128 && len(base)+k != 168 {
+					continue
+				}
+				tags = append(tags, base+string(make([]byte, k)))
+				if k <= 24 {
+					tags = append(tags, base+strings.Repeat(" ", k), base+strings.Repeat("_", k))
+				}
+			}
+		}
+		for k := 1; padded && k < len(popSuite); k += 3 {
+			tags = append(tags, popSuite[:len(popSuite)-k])
+		}
+		// two application tags of which one extends the other by a prefix of the signature suite (total length 64 and others):
+		// a signature under one is no signature under the other, whichever hasher was built first
+		for _, a := range []int{1, 21, 22, 30, 40, 63} {
+			for _, total := range []int{64, 65, 128} {
+				if !padded {
+					break
+				}
+				A := strings.Repeat("a", a)
+				ext := SigSuite + SigSuite + SigSuite + SigSuite
+				if total-a <= 0 || total-a > len(ext) {
+					continue
+				}
+				B := A + ext[:total-a]
+				for _, order := range [][2]string{{A, B}, {B, A}} {
+					h1 := crypto.NewExpandMsgXOFKMAC128(order[0])
+					h2 := crypto.NewExpandMsgXOFKMAC128(order[1])
+					s1, err := sk.Sign([]byte("tag pair"), h1)
+					res.Evals++
+					if err != nil {
+						add("Sign", err.Error())
+						continue
+					}
+					if ok, _ := pk.Verify(s1, []byte("tag pair"), h2); ok {
+						res.Violations = append(res.Violations, Violation{"C01", "AcceptanceSet", fmt.Sprintf("a signature under tag %q verifies under tag %q (another domain tag) [seed %d]", order[0], order[1], seed)})
+					}
+				}
+			}
+		}
 		for _, tag := range tags {
 			h := crypto.NewExpandMsgXOFKMAC128(tag)
 			sig, err := sk.Sign(pk.Encode(), h)
